@@ -16,6 +16,7 @@ import (
 	_ "embed"
 	"fmt"
 	"go/ast"
+	"go/printer"
 	"go/token"
 	"go/types"
 	"os"
@@ -119,6 +120,11 @@ func (p *Program) normalise() {
 			}()
 			if nd := in.normaliseDecl(pk, fn, d); nd != nil {
 				p.normDecl[d] = nd
+				if want := os.Getenv("GNETLINT_DUMPNORM"); want != "" && strings.Contains(FuncName(fn), want) { // development aid
+					fmt.Fprintf(os.Stderr, "---- normalised %s\n", FuncName(fn))
+					printer.Fprint(os.Stderr, token.NewFileSet(), nd)
+					fmt.Fprintln(os.Stderr)
+				}
 			}
 		}()
 	}
@@ -230,6 +236,7 @@ type cloner struct {
 	curSig   *types.Signature        // signature of the function (or function literal) whose body is being cloned
 	replace  map[ast.Node]*ast.Ident // helper calls in argument position, hoisted into a temporary
 	top      *ast.BlockStmt          // body of the declaration being normalised (as written)
+	eta      map[ast.Node]ast.Expr   // function values naming a helper outside the baseline, as literals calling it
 	tailOK   bool                    // set while the callee of a `return h(…)` statement is looked up
 }
 
@@ -333,9 +340,17 @@ func (c *cloner) node(n ast.Node) ast.Node {
 		}
 		return id
 	}
+	if lit, ok := c.eta[n]; ok {
+		return lit
+	}
 	if call, ok := n.(*ast.CallExpr); ok {
 		if e := c.tryExprInline(call); e != nil {
 			return e
+		}
+		if c.in != nil && c.subst == nil {
+			for _, a := range call.Args {
+				c.etaExpand(a)
+			}
 		}
 	}
 	if lit, ok := n.(*ast.FuncLit); ok && c.in != nil {
@@ -392,6 +407,98 @@ func (c *cloner) node(n ast.Node) ast.Node {
 	clone := nv.Interface().(ast.Node)
 	c.copyInfo(n, clone)
 	return clone
+}
+
+// etaExpand prepares, for a function value in argument position that names a helper outside the
+// baseline (`ln.closeOnce.Do(ln.release)`, `Trigger(prio, el.quit, nil)`), the literal
+// `func(params) results { return recv.helper(params) }` with the helper's body absorbed into it: the
+// rules then find the literal they found before the body was given a name. The receiver must be a
+// stable expression (a method value binds it when it is evaluated, the literal when it is called).
+func (c *cloner) etaExpand(a ast.Expr) {
+	var id *ast.Ident
+	switch f := ast.Unparen(a).(type) {
+	case *ast.Ident:
+		id = f
+	case *ast.SelectorExpr:
+		id = f.Sel
+		if !stableExpr(c.src, f.X) {
+			return
+		}
+	default:
+		return
+	}
+	fn, ok := c.src.Uses[id].(*types.Func)
+	if !ok || c.in.p.declOf[fn] == nil || InBaseline(fn) || fn.Exported() {
+		return
+	}
+	sig, _ := fn.Type().(*types.Signature)
+	if sig == nil || sig.Variadic() || sig.Results().Len() > 1 {
+		return
+	}
+	for _, on := range c.stack {
+		if on == fn {
+			return
+		}
+	}
+	pos := a.Pos()
+	c.in.seq++
+	params := &ast.FieldList{Opening: pos, Closing: pos}
+	var args []ast.Expr
+	var pvars []*types.Var
+	for i := 0; i < sig.Params().Len(); i++ {
+		pt := sig.Params().At(i).Type()
+		name := "eta" + strconv.Itoa(c.in.seq) + "_" + strconv.Itoa(i)
+		pv := types.NewParam(pos, fn.Pkg(), name, pt)
+		pvars = append(pvars, pv)
+		def := &ast.Ident{NamePos: pos, Name: name}
+		c.src.Defs[def] = pv
+		use := &ast.Ident{NamePos: pos, Name: name}
+		c.src.Uses[use] = pv
+		c.src.Types[use] = types.TypeAndValue{Type: pt}
+		tyExpr := &ast.Ident{NamePos: pos, Name: "_"} // the type expression is never looked at
+		c.src.Types[tyExpr] = types.TypeAndValue{Type: pt}
+		params.List = append(params.List, &ast.Field{Names: []*ast.Ident{def}, Type: tyExpr})
+		args = append(args, use)
+	}
+	inner := &ast.CallExpr{Fun: a, Lparen: pos, Args: args, Rparen: pos}
+	var body ast.Stmt
+	var results *ast.FieldList
+	lsig := types.NewSignatureType(nil, nil, nil, types.NewTuple(pvars...), sig.Results(), false)
+	if sig.Results().Len() == 1 {
+		rt := sig.Results().At(0).Type()
+		c.src.Types[inner] = types.TypeAndValue{Type: rt}
+		tyExpr := &ast.Ident{NamePos: pos, Name: "_"}
+		c.src.Types[tyExpr] = types.TypeAndValue{Type: rt}
+		results = &ast.FieldList{List: []*ast.Field{{Type: tyExpr}}}
+		body = &ast.ReturnStmt{Return: pos, Results: []ast.Expr{inner}}
+	} else {
+		c.src.Types[inner] = types.TypeAndValue{Type: types.NewTuple()}
+		body = &ast.ExprStmt{X: inner}
+	}
+	sub := *c
+	sub.curSig = lsig
+	sub.eta = nil
+	out := sub.stmt(body)
+	if len(out) == 1 {
+		switch y := out[0].(type) {
+		case *ast.ExprStmt:
+			if _, isCall := ast.Unparen(y.X).(*ast.CallExpr); isCall {
+				return // not absorbed
+			}
+		case *ast.ReturnStmt:
+			if len(y.Results) == 1 {
+				if _, isCall := ast.Unparen(y.Results[0]).(*ast.CallExpr); isCall {
+					return
+				}
+			}
+		}
+	}
+	lit := &ast.FuncLit{Type: &ast.FuncType{Func: pos, Params: params, Results: results}, Body: &ast.BlockStmt{Lbrace: pos, List: out, Rbrace: a.End()}}
+	c.dst.Types[lit] = types.TypeAndValue{Type: lsig}
+	if c.eta == nil {
+		c.eta = map[ast.Node]ast.Expr{}
+	}
+	c.eta[a] = lit
 }
 
 // ---- which calls are absorbed ----
